@@ -52,6 +52,9 @@ FinalClause == IF bad # "" THEN bad
                ELSE IF ~C15_NoLeakIntoDrivers THEN "INV.C15_NoLeakIntoDrivers"
                ELSE IF ~C15_FinishedOnce THEN "INV.C15_FinishedOnce"
                ELSE IF Traces[tid].final # "" THEN "py:" \o Traces[tid].final
+               ELSE IF {<<Traces[tid].ended[i][1], Traces[tid].ended[i][2]>> : i \in DOMAIN Traces[tid].ended}
+                       # {<<finished[i].a, finished[i].st>> : i \in DOMAIN finished} THEN "end_messages_of_actions"
+               ELSE IF Len(Traces[tid].ended) # Len(finished) THEN "action_finished_twice"
                ELSE ""
 TDone == /\ (l = N + 1 \/ bad # "") /\ l <= N + 1
          /\ PrintT(<<"ACC", tid, FinalClause, l>>)
